@@ -35,29 +35,30 @@ import (
 )
 
 type verifOp struct {
-	Op        string            `json:"op"`
-	Sets      [][2]string       `json:"sets,omitempty"`
-	Probe     bool              `json:"probe,omitempty"`
-	Addrs     []string          `json:"addrs,omitempty"`
-	Dials     int               `json:"dials,omitempty"`
-	Files     []string          `json:"files,omitempty"`
-	To        string            `json:"to,omitempty"`
-	Output    string            `json:"output,omitempty"`
-	Type      string            `json:"type,omitempty"`
-	Every     int64             `json:"every,omitempty"`
-	Buckets   string            `json:"buckets,omitempty"`
-	Threshold int               `json:"threshold,omitempty"`
-	Title     string            `json:"title,omitempty"`
-	Args      []string          `json:"args,omitempty"`
-	Steps     []string          `json:"steps,omitempty"`
-	Hits      int               `json:"hits,omitempty"`
-	LatencyMs int               `json:"latency_ms,omitempty"`
-	SignalMs  int               `json:"signal_ms,omitempty"`
-	Signals   int               `json:"signals,omitempty"`
-	Workers   int               `json:"workers,omitempty"`
-	Dir       string            `json:"dir,omitempty"`
-	Docs      map[string]string `json:"docs,omitempty"`
-	Server    string            `json:"server,omitempty"`
+	Op         string            `json:"op"`
+	Sets       [][2]string       `json:"sets,omitempty"`
+	Probe      bool              `json:"probe,omitempty"`
+	Addrs      []string          `json:"addrs,omitempty"`
+	Dials      int               `json:"dials,omitempty"`
+	Files      []string          `json:"files,omitempty"`
+	To         string            `json:"to,omitempty"`
+	Output     string            `json:"output,omitempty"`
+	Type       string            `json:"type,omitempty"`
+	Every      int64             `json:"every,omitempty"`
+	Buckets    string            `json:"buckets,omitempty"`
+	Threshold  int               `json:"threshold,omitempty"`
+	Title      string            `json:"title,omitempty"`
+	Args       []string          `json:"args,omitempty"`
+	Steps      []string          `json:"steps,omitempty"`
+	Hits       int               `json:"hits,omitempty"`
+	LatencyMs  int               `json:"latency_ms,omitempty"`
+	SignalMs   int               `json:"signal_ms,omitempty"`
+	Signals    int               `json:"signals,omitempty"`
+	Workers    int               `json:"workers,omitempty"`
+	Dir        string            `json:"dir,omitempty"`
+	Docs       map[string]string `json:"docs,omitempty"`
+	Server     string            `json:"server,omitempty"`
+	DurationMs int               `json:"duration_ms,omitempty"`
 }
 
 type verifSet struct {
@@ -402,7 +403,7 @@ func verifAttackPump(op *verifOp, res *verifOut) {
 		vegeta.Client(&http.Client{Transport: verifSlowRT{&started, time.Duration(op.LatencyMs) * time.Millisecond}}),
 		vegeta.Workers(uint64(op.Workers)), vegeta.MaxWorkers(uint64(op.Workers)))
 	tr := vegeta.NewStaticTargeter(vegeta.Target{Method: "GET", URL: "http://verif.invalid/"})
-	results := atk.Attack(tr, verifCountPacer{uint64(op.Hits)}, 0, "pump")
+	results := atk.Attack(tr, verifCountPacer{uint64(op.Hits)}, time.Duration(op.DurationMs)*time.Millisecond, "pump")
 	sig := make(chan os.Signal, 1)
 	var mu sync.Mutex
 	enc := vegeta.Encoder(func(r *vegeta.Result) error {
@@ -596,7 +597,23 @@ func verifE2E(op *verifOp, res *verifOut) {
 	for i, a := range op.Args {
 		args[i] = sub.Replace(a)
 	}
-	res.Err = verifErr(attackCmd().fn(args))
+	done := make(chan error, 1)
+	go func() { done <- attackCmd().fn(args) }()
+	select {
+	case err := <-done:
+		res.Err = verifErr(err)
+	case <-time.After(15 * time.Second):
+		// no case runs for more than a few seconds: the attack is ended the way a user would end it
+		signal.Notify(verifSigSink, os.Interrupt)
+		_ = syscall.Kill(os.Getpid(), syscall.SIGINT)
+		time.Sleep(50 * time.Millisecond)
+		_ = syscall.Kill(os.Getpid(), syscall.SIGINT)
+		select {
+		case <-done:
+		case <-time.After(5 * time.Second):
+		}
+		res.Err = "watchdog: the attack did not end by itself within 15s"
+	}
 	mu.Lock()
 	res.Requests = append([]verifReq{}, reqs...)
 	mu.Unlock()
